@@ -213,6 +213,39 @@ impl QmcSpec {
     }
 }
 
+impl QmcSpec {
+    /// Build the sampler in two stages: the first `m` interactions, heat bath on and `warm` time steps (so that
+    /// the heat-bath table is cached); then the heat bath is switched off, the remaining interactions are added,
+    /// and the option is set to its final value.  A legal sequence of public calls; the resulting sampler must
+    /// behave exactly like one that was given all interactions up front.
+    pub fn build_staged(&self, rng: TapeRng, m: usize, warm: usize, beta: f64) -> Option<GQ> {
+        let mut q = GQ::new_with_state(self.nvars, rng, self.state.clone(), self.loops);
+        let add = |q: &mut GQ, b: &BondSpec| match b.kind {
+            0 => q.make_interaction(b.mat.clone(), b.vars.clone()),
+            1 => q.make_interaction_and_offset(b.mat.clone(), b.vars.clone()),
+            2 => q.make_diagonal_interaction(b.mat.clone(), b.vars.clone()),
+            _ => q.make_diagonal_interaction_and_offset(b.mat.clone(), b.vars.clone()),
+        };
+        for b in &self.bonds[..m.min(self.bonds.len())] {
+            if add(&mut q, b).is_err() {
+                return None;
+            }
+        }
+        q.set_do_heatbath(true);
+        for _ in 0..warm {
+            q.timestep(beta);
+        }
+        q.set_do_heatbath(false);
+        for b in &self.bonds[m.min(self.bonds.len())..] {
+            if add(&mut q, b).is_err() {
+                return None;
+            }
+        }
+        q.set_do_heatbath(self.hb);
+        Some(q)
+    }
+}
+
 pub fn snapshot_qmc(g: &GQ) -> (Slots, Vec<bool>, usize) {
     (read_slots(g.get_manager_ref()), g.clone_state(), g.get_cutoff())
 }
